@@ -67,7 +67,12 @@ fn run_concurrent(c: &[Val]) -> Val {
     for round in 0..rounds {
         let tmp = tempfile::tempdir().expect("tempdir");
         let root = tmp.path().to_path_buf();
-        let shared = root.join("arch").join(format!("y{}", round)).join("deep");
+        // odd rounds: only the LAST directory level is missing (its parent exists); even rounds: three levels
+        let shared = if round % 2 == 1 {
+            root.join("arch")
+        } else {
+            root.join("arch").join(format!("y{}", round)).join("deep")
+        };
         let barrier = std::sync::Barrier::new(nthreads);
         let results: Vec<(bool, bool)> = std::thread::scope(|sc| {
             let hs: Vec<_> = (0..nthreads)
